@@ -18,7 +18,7 @@ CONSTANTS
  KeepSlots = FALSE
  TarUnverified = FALSE
  MTs = {TRUE, FALSE}
- DigestHdrs = {"absent", "echo", "served", "servedother", "garbage"}
+ DigestHdrs = {"absent", "echo", "served"}
  Sts = {"std"}
  DropKinds = {"ueof"}
 INIT GInit
